@@ -151,6 +151,26 @@ func checkStack(nodes []*setNode) (lines []string, bad string) {
 				bad = fmt.Sprintf("node %d = node %d SubtractReactive nodes %v holds %v but the source holds %v and the subtracted sets %v", k, n.in[0], n.in[1:], vals[k], vals[n.in[0]], parts)
 			}
 		}
+		if n.kind != "base" && bad == "" {
+			// the other read paths of the derived set must show the same content as ToSlice (quiescent: nothing changes)
+			exp := ds.NewSet(vals[k]...)
+			var each, filtered []int
+			_ = n.set.ForEach(func(x int) error { each = append(each, x); return nil })
+			n.set.Range(func(x int) { filtered = append(filtered, x) })
+			any, has := n.set.Any()
+			switch {
+			case n.set.Size() != len(vals[k]) || n.set.IsEmpty() != (len(vals[k]) == 0):
+				bad = fmt.Sprintf("node %d: Size() = %d, IsEmpty() = %v, ToSlice() = %v", k, n.set.Size(), n.set.IsEmpty(), vals[k])
+			case !sameSet(each, vals[k]) || !sameSet(filtered, vals[k]):
+				bad = fmt.Sprintf("node %d: ForEach lists %v, Range lists %v, ToSlice() = %v", k, each, filtered, vals[k])
+			case !n.set.Equals(exp) || !n.set.HasAll(exp) || !exp.HasAll(n.set) || !sameSet(n.set.Intersect(exp).ToSlice(), vals[k]) || !sameSet(n.set.Clone().ToSlice(), vals[k]):
+				bad = fmt.Sprintf("node %d: Equals / HasAll / Intersect / Clone disagree with ToSlice() = %v", k, vals[k])
+			case !sameSet(n.set.Filter(func(x int) bool { return x%2 == 1 }).ToSlice(), oddOnes(vals[k])):
+				bad = fmt.Sprintf("node %d: Filter(odd) = %v, ToSlice() = %v", k, n.set.Filter(func(x int) bool { return x%2 == 1 }).ToSlice(), vals[k])
+			case has != (len(vals[k]) > 0) || (has && !n.set.Has(any)):
+				bad = fmt.Sprintf("node %d: Any() = (%d, %v), ToSlice() = %v", k, any, has, vals[k])
+			}
+		}
 		if n.active != nil {
 			n.mu.Lock()
 			act := []int{}
@@ -172,6 +192,17 @@ func checkStack(nodes []*setNode) (lines []string, bad string) {
 	}
 
 	return lines, bad
+}
+
+func oddOnes(xs []int) []int {
+	out := []int{}
+	for _, x := range xs {
+		if x%2 == 1 || x%2 == -1 {
+			out = append(out, x)
+		}
+	}
+
+	return out
 }
 
 func describeStack(shape string) string {
@@ -621,3 +652,79 @@ func genStack(rng *hx.Rng, kind string) string {
 
 	return fmt.Sprintf("stress stack %s %d %d %d", hx.Pick(rng, stackShapeNames), rng.Range(20, 150), rng.Intn(2), rng.U64())
 }
+
+// region sequential differential of the compositions ///////////////////////////////////////////////////////////////
+
+// gsWorld: `gs new <shape> <A> <B> <C>` builds one of the stacked shapes over three base sets with the given contents,
+// `gs add|del|apply|replace <i> …` writes base set i; the answer lists the derived nodes.  The Lean driver runs the same
+// history on the graph model (Hive/Model/DerivedGraph.lean: gStep with every report delivered after each request).
+type gsWorld struct {
+	nodes []*setNode
+}
+
+func (w *gsWorld) exec(r failer, f []string) string {
+	switch f[0] {
+	case "new":
+		if w.nodes != nil || len(f) != 5 {
+			return "bad-op"
+		}
+		specs, ok := stackShapes[f[1]]
+		if !ok {
+			return "bad-op"
+		}
+		w.nodes = newStackBases([3][]int{parseInts(f[2]), parseInts(f[3]), parseInts(f[4])})
+		for _, spec := range specs {
+			w.nodes = append(w.nodes, buildStackNode(w.nodes, spec))
+		}
+	case "add", "del", "apply", "replace":
+		if w.nodes == nil || atoi(f[1]) > 2 {
+			return "bad-op"
+		}
+		p := &pool{sets: map[int]reactive.Set[int]{0: w.nodes[0].set, 1: w.nodes[1].set, 2: w.nodes[2].set}, scale: 1}
+		if !p.write(f) {
+			return "bad-op"
+		}
+	default:
+		return "bad-op"
+	}
+	if _, bad := checkStack(w.nodes); bad != "" {
+		r.Fail("stacked-derivation", fmt.Sprintf("after %q: %s", strings.Join(f, " "), bad), map[string]string{"construct": "Stacked", "trigger": f[0], "mode": "sequential"})
+	}
+	parts := make([]string, 0, len(w.nodes)-3)
+	for k := 3; k < len(w.nodes); k++ {
+		parts = append(parts, fmt.Sprintf("%d=%s", k, showSetLike(sortedCopy(w.nodes[k].set.ToSlice()))))
+	}
+
+	return strings.Join(parts, " ")
+}
+
+// showSetLike prints a sorted listing as the Lean side prints a set: [1 2 3].
+func showSetLike(xs []int) string {
+	parts := make([]string, len(xs))
+	for i, x := range xs {
+		parts[i] = fmt.Sprint(x)
+	}
+
+	return "[" + strings.Join(parts, " ") + "]"
+}
+
+func genGS(rng *hx.Rng, n int) []string {
+	ops := []string{fmt.Sprintf("gs new %s %s %s %s", hx.Pick(rng, stackShapeNames), joinInts(randomSubset(rng)), joinInts(randomSubset(rng)), joinInts(randomSubset(rng)))}
+	for len(ops) < n {
+		i := rng.Intn(3)
+		switch x := rng.Intn(100); {
+		case x < 40:
+			ops = append(ops, fmt.Sprintf("gs add %d %d", i, rng.Range(1, 5)))
+		case x < 75:
+			ops = append(ops, fmt.Sprintf("gs del %d %d", i, rng.Range(1, 5)))
+		case x < 90:
+			ops = append(ops, fmt.Sprintf("gs replace %d %s", i, joinInts(randomSubset(rng))))
+		default:
+			ops = append(ops, fmt.Sprintf("gs apply %d %s %s", i, joinInts(randomSubset(rng)), joinInts(randomSubset(rng))))
+		}
+	}
+
+	return ops
+}
+
+// endregion
